@@ -127,6 +127,38 @@ func c33Poll(cond func() bool) bool {
 	return true
 }
 
+// c33DialT / c33AcceptT call Dial / Accept with the failure-detector timeout (a tree that violates the property
+// may block there for ever); ok = false means the call did not return.
+func c33DialT(ln *fasthttputil.InmemoryListener) (c net.Conn, err error, ok bool) {
+	type r struct {
+		c   net.Conn
+		err error
+	}
+	ch := make(chan r, 1)
+	done := make(chan struct{})
+	go func() { c, err := ln.Dial(); ch <- r{c, err}; close(done) }()
+	if !c33WaitCh(done) {
+		return nil, nil, false
+	}
+	x := <-ch
+	return x.c, x.err, true
+}
+
+func c33AcceptT(ln *fasthttputil.InmemoryListener) (c net.Conn, err error, ok bool) {
+	type r struct {
+		c   net.Conn
+		err error
+	}
+	ch := make(chan r, 1)
+	done := make(chan struct{})
+	go func() { c, err := ln.Accept(); ch <- r{c, err}; close(done) }()
+	if !c33WaitCh(done) {
+		return nil, nil, false
+	}
+	x := <-ch
+	return x.c, x.err, true
+}
+
 // ---------------------------------------------------------------------------------------------
 // seq
 
@@ -766,7 +798,13 @@ func c33BuildLnSeq(a [][]byte) *Case {
 				break
 			}
 			ai := len(accs)
-			c, err := ln.Accept()
+			c, err, returned := c33AcceptT(ln)
+			if !returned {
+				fail("accept-stuck", "Accept did not return (listener closed=%v, queued=%d)", closed, fasthttputil.VerifListenerQueued(ln))
+				obs = append(obs, "A:stuck")
+				accs = append(accs, "stuck")
+				break
+			}
 			if err != nil {
 				if err != fasthttputil.ErrInmemoryListenerClosed {
 					fail("accept-unknown-error", "Accept returned %v", err)
@@ -1073,10 +1111,14 @@ func c33BuildLnConc(a [][]byte) *Case {
 		}
 		mu.Unlock()
 		// after Close: nothing succeeds
-		if c, err := ln.Dial(); err != fasthttputil.ErrInmemoryListenerClosed || c != nil {
+		if c, err, ok := c33DialT(ln); !ok {
+			fail("dial-stuck-after-close", "Dial after Close did not return")
+		} else if err != fasthttputil.ErrInmemoryListenerClosed || c != nil {
 			fail("dial-after-close-succeeded", "Dial after Close returned (%v, %v)", c, err)
 		}
-		if c, err := ln.Accept(); err != fasthttputil.ErrInmemoryListenerClosed || c != nil {
+		if c, err, ok := c33AcceptT(ln); !ok {
+			fail("accept-stuck-after-close", "Accept after Close did not return")
+		} else if err != fasthttputil.ErrInmemoryListenerClosed || c != nil {
 			fail("accept-after-close-succeeded", "Accept after Close returned (%v, %v)", c, err)
 		}
 	}
